@@ -25,20 +25,25 @@ PROP = "C15"
 SUPPORT = {
     ("S", 2): ["L1", "L2", "L3", "D0", "D1", "CR", "PB"],
     ("S", 3): ["L1", "L2", "D0", "D1", "CR"],
-    ("H", 1): ["L1", "L2", "L3", "D0", "B2"],
+    ("H", 1): ["L1", "L2", "L3", "D0", "B2", "HE", "HE", "BF"],
     ("H", 2): ["L1", "L2", "L3", "D0", "B2"],
     ("H", 3): ["L1", "L2", "L3", "D0", "B2"],
 }
 # families whose node functionals are exact in Q (point evaluations)
-INTERP_FAMS = {"L1", "L2", "L3", "D0", "D1", "CR", "PB"}
+INTERP_FAMS = {"L1", "L2", "L3", "D0", "D1", "CR", "PB", "HE"}
+# derivative-DOF elements that the harness instantiates but the Lean model does not cover in 2-D (oracle only):
+# Hermite-3 on quadrilaterals / triangles, Bogner-Fox-Schmit on quadrilaterals
+SUPPORT_2D_DERIV = {("H", 2): ["HE", "BF"], ("S", 2): ["HE"]}
+DERIV_FAMS = {"HE", "BF"}
+C1_FAMS = {"HE"}
 # polynomial degree that the interpolant reproduces on every cell (affine or multilinear)
-REPRO_DEG = {"L1": 1, "L2": 2, "L3": 3, "D0": 0, "D1": 1, "CR": 1, "PB": 2}
-H1_CONFORMING = {"L1", "L2", "L3", "PB"}
+REPRO_DEG = {"L1": 1, "L2": 2, "L3": 3, "D0": 0, "D1": 1, "CR": 1, "PB": 2, "HE": 3}
+H1_CONFORMING = {"L1", "L2", "L3", "PB", "HE"}
 LAGRANGE_DEG = {"L1": 1, "L2": 2, "L3": 3}
 
 
 # what every evaluator implements (SpaceTags bits: value 1, grad 2, hess 4, ref_value 8, ref_grad 16, ref_hess 32)
-CAPS = {"L1": 27, "L2": 63, "L3": 63, "PB": 63, "B2": 63, "CR": 27, "D1": 27, "D0": 1}
+CAPS = {"L1": 27, "L2": 63, "L3": 63, "PB": 63, "B2": 63, "CR": 27, "D1": 27, "D0": 1, "HE": 63, "BF": 63}
 # the config masks the harness instantiates (all subsets of {value,grad,hess}, all of {ref_*}, some mixed, everything)
 EVCFG_MASKS = [1, 2, 3, 4, 5, 6, 7, 8, 16, 24, 32, 40, 48, 56, 17, 12, 34, 63]
 
@@ -89,6 +94,12 @@ def dofs_per_dim(fam, kind, dim):
         t = [dim + 1 if d == dim else 0 for d in range(4)]
     elif fam == "CR":
         t = [1 if d == dim - 1 else 0 for d in range(4)]
+    elif fam == "HE":
+        # value + all first derivatives at every vertex; the remaining cubic functions are attached to the cell
+        ncell = {1: 0, 2: (4 if kind == "H" else 1)}.get(dim, 0)
+        t = [dim + 1 if d == 0 else (ncell if d == dim else 0) for d in range(4)]
+    elif fam == "BF":
+        t = [2 ** dim if d == 0 else 0 for d in range(4)]
     return t[:dim + 1]
 
 
@@ -165,7 +176,53 @@ def rand_interior_point(rng, kind, dim):
     return tuple(Fr(rng.randint(-7, 7), 8) for _ in range(dim))
 
 
+def vertex_points(kind, dim):
+    return " ".join(fmt_pt(v) for v in M.ref_vertices(kind, dim))
+
+
+def gen_deriv_case(rng):
+    """Hermite-3 / Bogner-Fox-Schmit: 1-D meshes with intervals of both orientations and non-uniform sizes (the
+    generator lists the two vertices of every interval in random order), arbitrary cells in 2-D"""
+    r = rng.random()
+    if r < 0.7:
+        kind, dim = "H", 1
+        fam = rng.choice(["HE", "HE", "BF"])
+        m = M.random_mesh(rng, kind, dim)
+    else:
+        kind, dim = rng.choice([("H", 2), ("S", 2)])
+        fam = rng.choice(SUPPORT_2D_DERIV[(kind, dim)])
+        m = M.random_mesh(rng, kind, dim, max_cells=4)
+    nc = m.num(dim)
+    c = rng.randrange(nc)
+    r = rng.random()
+    if r < 0.35:
+        # all basis functions at the vertices of the cell: the oracle applies the derivative node functionals
+        return "evpts %s %s %d %d %s" % (fam, m.fmt(), c, len(M.ref_vertices(kind, dim)), vertex_points(kind, dim))
+    if r < 0.5:
+        return "evcfg %s %s %d %s %d %d" % (fam, m.fmt(), c, fmt_pt(rand_interior_point(rng, kind, dim)),
+                                           rng.choice(masks_of(fam)), rng.choice([255, 0]))
+    if fam == "HE" and dim == 2 and r < 0.8:
+        # 2-D Hermite-3: the vertex coefficients of the interpolant are (f, df/dx, df/dy) at the vertex (oracle only)
+        return "interp %s %s %s 0" % (fam, m.fmt(), fmt_poly(rand_poly(rng, 2, 3, nterms=6)))
+    if r < 0.6 or fam != "HE" or dim != 1:
+        if dim == 1 and rng.random() < 0.5:
+            return "ev %s %s %d %s" % (fam, m.fmt(), c, fmt_pt(rand_ref_point(rng, kind, dim)))
+        return "dofs %s %s" % (fam, m.fmt())
+    # Hermite-3 in 1-D: interpolation of a cubic (reproduced incl. derivatives) or of a quintic (C1-continuity only),
+    # evaluated inside cells and from both sides of every interior vertex
+    deg = 3 if rng.random() < 0.6 else 5
+    p = rand_poly(rng, 1, deg, nterms=6)
+    queries = [(rng.randrange(nc), rand_ref_point(rng, kind, dim)) for _ in range(3)]
+    for (v, cl) in M.interior_facets(m):
+        for (cc, _l) in cl[:2]:
+            queries.append((cc, M.facet_point_in_cell(m, v, cc, ())))
+    return "interp %s %s %s %d %s" % (fam, m.fmt(), fmt_poly(p), len(queries),
+                                      " ".join("%d %s" % (cc, fmt_pt(x)) for cc, x in queries))
+
+
 def gen_case(rng, tier):
+    if rng.random() < 0.12:
+        return gen_deriv_case(rng)
     kd = rng.choice([("S", 2), ("S", 2), ("H", 2), ("H", 2), ("H", 1), ("S", 3), ("H", 3)])
     kind, dim = kd
     fam = rng.choice(SUPPORT[kd])
@@ -243,6 +300,7 @@ def fixed_cases():
     out = []
     for kd, fams in sorted(SUPPORT.items()):
         kind, dim = kd
+        fams = list(dict.fromkeys(fams))
         for fam in fams:
             for rep in range(2):
                 m = M.random_mesh(rng, kind, dim, mode=("general" if rep else "affine"), max_cells=(2 if dim == 3 else 4))
@@ -277,6 +335,42 @@ def fixed_cases():
     return out
 
 
+def _hermite_corpus():
+    """hand-built 1-D meshes (no FEAT factory lists an interval right-to-left): vertices 0, 1, 3, 7/2; the cells list
+    their vertices as (0,1) [left-to-right], (2,1) [right-to-left], (3,2) [right-to-left]: both orientations, three
+    different lengths, and the interior vertices 1 and 3 are seen with every combination of orientations.
+    Regression for seeded/c15-hermite3-1d-jacdet-sign (derivative basis functions scaled with |J| instead of J)."""
+    xs = [Fr(0), Fr(1), Fr(3), Fr(7, 2)]
+    out = []
+    for cells in ([(0, 1), (2, 1), (3, 2)], [(1, 0), (1, 2), (2, 3)], [(1, 0), (2, 1), (3, 2)]):
+        m = M.Mesh("H", 1, [(x,) for x in xs], cells)
+        m.deduce(None)
+        p = {(0,): Fr(1), (1,): Fr(-2), (2,): Fr(1, 2), (3,): Fr(1)}
+        qs = []
+        for c in range(3):
+            qs += [(c, (Fr(-1),)), (c, (Fr(1, 3),)), (c, (Fr(1),))]
+        for fam in ("HE", "BF"):
+            for c in range(3):
+                out.append("evpts %s %s %d 2 -1/1 1/1" % (fam, m.fmt(), c))
+            out.append("dofs %s %s" % (fam, m.fmt()))
+            out.append("ev %s %s 1 1/2" % (fam, m.fmt()))
+        out.append("interp HE %s %s %d %s" % (m.fmt(), fmt_poly(p), len(qs), " ".join("%d %s" % (c, fmt_pt(x)) for c, x in qs)))
+        p5 = {(0,): Fr(1, 3), (2,): Fr(-1), (5,): Fr(1, 7)}
+        out.append("interp HE %s %s %d %s" % (m.fmt(), fmt_poly(p5), len(qs), " ".join("%d %s" % (c, fmt_pt(x)) for c, x in qs)))
+    rng = random.Random(1509)
+    for kd, fams in sorted(SUPPORT_2D_DERIV.items()):
+        for fam in fams:
+            m = M.random_mesh(rng, kd[0], kd[1], mode="general", max_cells=4)
+            for c in range(min(2, m.num(kd[1]))):
+                out.append("evpts %s %s %d %d %s" % (fam, m.fmt(), c, len(M.ref_vertices(*kd)), vertex_points(*kd)))
+            out.append("dofs %s %s" % (fam, m.fmt()))
+            if fam == "HE":
+                out.append("interp HE %s %s 0" % (m.fmt(), fmt_poly(rand_poly(rng, 2, 3, nterms=6))))
+    return out
+
+
+HERMITE_CORPUS = _hermite_corpus()
+
 CORPUS = [
     # replayed first on every run.  No input has failed on the unchanged tree so far; these are the inputs tied to
     # FINDINGS_C15.md (discontinuous P1 on simplices: capabilities not advertised, values/gradients must be right)
@@ -284,7 +378,7 @@ CORPUS = [
     "interp D1 S 2 3 0/1 0/1 1/1 0/1 0/1 1/1 3 0 1 1 2 2 0 1 0 1 2 1 2 0 2 1/2 0 0 3/1 1 0 1 0 1/3 1/3",
     # reference triangle with all three edges stored against the cell's local direction (Lagrange-3 edge DOFs)
     "interp L3 S 2 3 0/1 0/1 1/1 0/1 0/1 1/1 3 1 0 2 1 0 2 1 0 1 2 1 2 0 3 1/1 3 0 -2/1 1 2 1/3 0 3 2 0 1/4 1/2 0 1/5 1/5",
-]
+] + HERMITE_CORPUS
 
 
 # ---------------------------------------------------------------------------------------------
@@ -481,6 +575,40 @@ def oracle_(case, out):
         if adv & dl != dl:
             return "advertised eval_caps %d do not include what the evaluator delivers (%d)" % (adv, dl)
         return None
+    if c.op == "evpts":
+        cell = int(c.rest[0])
+        npt = int(c.rest[1])
+        pts = [tuple(M.pfr(t) for t in c.rest[2 + q * dim:2 + (q + 1) * dim]) for q in range(npt)]
+        assert o[0] == "P"
+        nl, hg, hh = int(o[1]), int(o[2]), int(o[3])
+        ncomp = 1 + (dim if hg else 0) + (dim * dim if hh else 0)
+        vals = [M.pfr(t) for t in o[4:]]
+        if len(vals) != npt * nl * ncomp:
+            return "malformed evpts output"
+        if fam in DERIV_FAMS and pts == [tuple(v) for v in M.ref_vertices(kind, dim)]:
+            # duality of the vertex functionals with the local basis, from the definition of the element:
+            # Hermite-3: value, d/dx_1 .. d/dx_dim ; Bogner-Fox-Schmit: value, d/dx, (d/dy, d2/dxdy)
+            if not (hg and (hh or fam == "HE" or dim == 1)):
+                return "evaluator does not deliver the derivatives its node functionals need"
+            kv = dofs_per_dim(fam, kind, dim)[0]
+            for l in range(npt):
+                for j in range(nl):
+                    base = (l * nl + j) * ncomp
+                    funcs = [vals[base]] + [vals[base + 1 + a] for a in range(dim)]
+                    # Bogner-Fox-Schmit in 2-D: FEAT defines no node functionals for it and leaves the 4th vertex function
+                    # (q x q) untransformed, so only value, d/dx, d/dy are judged (stride 4 in the local numbering)
+                    for t in range(min(kv, dim + 1)):
+                        exp = Fr(1) if j == l * kv + t else Fr(0)
+                        if funcs[t] != exp:
+                            names = ["value", "d/dx", "d/dy", "d2/dxdy"]
+                            if dim == 1:
+                                vs = m.cell_verts(1, cell)
+                                where = " (interval listed %s)" % ("left-to-right" if vs[0][0] < vs[1][0] else "right-to-left")
+                            else:
+                                where = ""
+                            return ("node functional '%s at local vertex %d' applied to local basis function %d gives %s, "
+                                    "expected %s: functionals are not dual to the basis%s" % (names[t], l, j, funcs[t], exp, where))
+        return None
     if c.op == "evcfg":
         cell = int(c.rest[0])
         x = [M.pfr(t) for t in c.rest[1:1 + dim]]
@@ -672,6 +800,21 @@ def oracle_(case, out):
                     pts[M.map_point(kind, dim, verts, nd)] = True
             if sorted(coef) != sorted(p_eval(p, y) for y in pts):
                 return "interpolation coefficients are not the values of the function at the lattice nodes of the mesh"
+        if fam == "HE" and dim == 2:
+            gps = [p_deriv(p, 0), p_deriv(p, 1)]
+            for v in range(m.num(0)):
+                exp3 = [p_eval(p, m.coords[v]), p_eval(gps[0], m.coords[v]), p_eval(gps[1], m.coords[v])]
+                if coef[3 * v:3 * v + 3] != exp3:
+                    return "Hermite coefficients of vertex %d are %s, expected (f, df/dx, df/dy) = %s" % (
+                        v, [str(z) for z in coef[3 * v:3 * v + 3]], [str(z) for z in exp3])
+            return None
+        if fam == "HE" and dim == 1:
+            gp1 = p_deriv(p, 0)
+            for v in range(m.num(0)):
+                xv = m.coords[v]
+                if coef[2 * v] != p_eval(p, xv) or coef[2 * v + 1] != p_eval(gp1, xv):
+                    return "Hermite coefficients of vertex %d are (%s, %s), expected (f, f') = (%s, %s)" % (
+                        v, coef[2 * v], coef[2 * v + 1], p_eval(p, xv), p_eval(gp1, xv))
         # (b) every point: image point, reproduction of polynomials of the local space
         for (ci, x), (img, v, g, h) in zip(queries, res):
             verts = m.cell_verts(dim, ci)
@@ -700,7 +843,10 @@ def oracle_(case, out):
                 if img in byimg and byimg[img][1] != v:
                     return "interpolant is discontinuous at %s: %s in cell %d, %s in cell %d" % (
                         [str(z) for z in img], byimg[img][1], byimg[img][0], v, ci)
-                byimg.setdefault(img, (ci, v))
+                if fam in C1_FAMS and hg and img in byimg and byimg[img][2] != list(g):
+                    return "derivative of the C1 interpolant jumps at %s: %s in cell %d, %s in cell %d" % (
+                        [str(z) for z in img], [str(z) for z in byimg[img][2]], byimg[img][0], [str(z) for z in g], ci)
+                byimg.setdefault(img, (ci, v, list(g)))
         return None
     return None
 
@@ -726,7 +872,7 @@ def nontrivial(case):
     """non-trivial = a re-oriented entity (stored orientation differs from the cell's local one) on a mesh for an
     element with DOFs on edges/faces, or a non-affine cell, or >= 2 cells; trafo ops: always"""
     t = case.split(None, 2)
-    if t[0] in ("vol", "unmap", "caps"):
+    if t[0] in ("vol", "unmap", "caps", "evpts"):
         return True
     c = parse_case(case)
     m = c.mesh
@@ -748,6 +894,10 @@ def describe(case):
     c = parse_case(case)
     m = c.mesh
     keys.append("cells:%d" % m.num(m.dim))
+    if m.dim == 1 and t[1] in DERIV_FAMS:
+        rev = sum(1 for ci in range(m.num(1)) if m.cell_verts(1, ci)[0][0] > m.cell_verts(1, ci)[1][0])
+        keys.append("deriv-1d-intervals:%s" % ("all-left-to-right" if rev == 0 else
+                                                ("all-right-to-left" if rev == m.num(1) else "both-orientations")))
     if t[0] in ("evcfg", "trcfg"):
         keys.append("%s-mask:%s" % (t[0], c.rest[1 + m.dim]))
         keys.append("poison:%s" % c.rest[2 + m.dim])
@@ -775,6 +925,16 @@ def signature(case, out, why):
     if t[0] == "caps" and t[1] == "D1" and t[2] == "S" and why and why.startswith("advertised eval_caps"):
         return "c15-edge:F1"
     return "%s:%s:%s%s:%s" % (t[0], t[1], t[2], t[3], (why or "")[:40])
+
+
+def model_covers(case):
+    """ops without a Lean model: unmap (double precision); Hermite-3 / Bogner-Fox-Schmit in 2-D (oracle only)"""
+    t = case.split(None, 4)
+    if t[0] == "unmap":
+        return False
+    if t[1] in DERIV_FAMS and t[3] != "1":
+        return False
+    return True
 
 
 def install_known_findings():
@@ -834,7 +994,7 @@ def main(argv):
     install_known_findings()
     st = vlib.Stream("fe", cases, [binary], vlib.driver_cmd(PROP), oracle=oracle, nontrivial=nontrivial,
                      describe=describe, signature=signature, canon=canon,
-                     model_filter=lambda case: not case.startswith("unmap "))
+                     model_filter=model_covers)
     rule = ("random conformal meshes (1-8 cells; triangles, tetrahedra, segments, quadrilaterals, hexahedra; unit, affine "
             "and general multilinear geometry), every cell renumbered by a random symmetry of its shape, every edge/face "
             "randomly numbered and oriented; ops: dofs, ev (all local basis functions: value/grad/Hessian + trafo data), "
@@ -848,7 +1008,11 @@ def main(argv):
         "such a configuration is proved for the evaluator (slotPerm), for the remaining index bookkeeping it is "
         "covered by this correspondence run",
         "Index modelled as unbounded Nat",
-        "Lagrange-3 on tetrahedra, the non-parametric Rannacher-Turek / discontinuous-P1-on-hypercube evaluators and the "
+        "Hermite-3 and Bogner-Fox-Schmit: modelled and proved in 1-D (both interval orientations); in 2-D (Hermite-3 on "
+        "quadrilaterals/triangles, Bogner-Fox-Schmit on quadrilaterals) covered by the harness and the oracle only "
+        "(duality of the vertex functionals value, d/dx, d/dy with the basis on arbitrary cells, vertex coefficients of "
+        "the interpolant, config masks); Argyris is not instantiated (21x21 inverse with normalised normals)",
+                "Lagrange-3 on tetrahedra, the non-parametric Rannacher-Turek / discontinuous-P1-on-hypercube evaluators and the "
         "Bernstein-2 node functionals are not instantiable exactly at Q (constexpr scalar constants / irrational Gauss "
         "points): not covered"],
         extra_cov={"rule": rule, "generated_tables": sorted("%s/%s%d" % k for k in tables)})
